@@ -10,6 +10,7 @@ import (
 	"github.com/parquet-go/parquet-go"
 
 	"verifharness/core"
+	"verifharness/drv"
 	"verifharness/gen"
 )
 
@@ -62,7 +63,10 @@ func RunC02LongRow(ctx *core.Ctx) {
 			types = append(types, e)
 		}
 	}
-	ntypes := ctx.Scale(6, len(types))
+	ntypes := ctx.Scale(6, 12)
+	if ntypes > len(types) {
+		ntypes = len(types)
+	}
 	if ntypes < len(types) {
 		// a different slice of the catalogue per run seed
 		r := ctx.Rand("c02lr/types")
@@ -71,7 +75,17 @@ func RunC02LongRow(ctx *core.Ctx) {
 	}
 	modes := []string{"direct", "reset-reuse", "copy-from-file", "copy-from-buffer", "reencode-from-file"}
 	var wg sync.WaitGroup
-	sem := make(chan struct{}, 16)
+	// a pool of model processes shared by the workers (one per worker at a time)
+	const nworkers = 16
+	pool := make(chan *drv.Driver, nworkers)
+	for i := 0; i < nworkers; i++ {
+		d := ctx.Driver()
+		if d == nil {
+			return
+		}
+		pool <- d
+	}
+	sem := make(chan struct{}, nworkers)
 	for _, e := range types {
 		for mi, mode := range modes {
 			wg.Add(1)
@@ -79,13 +93,11 @@ func RunC02LongRow(ctx *core.Ctx) {
 			go func(e *gen.Entry, mi int, mode string) {
 				defer wg.Done()
 				defer func() { <-sem }()
-				d := ctx.Driver()
-				if d == nil {
-					return
-				}
+				d := <-pool
+				defer func() { pool <- d }()
 				stream := fmt.Sprintf("c02lr/%s/%s", e.Name, mode)
 				r := ctx.Rand(stream)
-				for k := 0; k < ctx.Scale(2, 6); k++ {
+				for k := 0; k < ctx.Scale(2, 4); k++ {
 					// even cases: a length up to 32 Ki; odd cases: 64 Ki and beyond
 					long := c02LongSmall[r.Intn(len(c02LongSmall))]
 					if k%2 == 1 {
